@@ -327,6 +327,7 @@ func rulesC04(w *World, r *Report) {
 	}
 
 	r.Rule("C04.R4", "derives-from: findBestArchive receives the caller's unclamped from and now; the selected archive r = list[id] provides the retention for clamping, the step and the interval alignment; from is clamped up to now-retention and until down to now; bounds are r.interval(clamped) with until extended by one step exactly when they coincide", 5)
+	ruleOneClockReading(w, r, "C04.R4", "Whisper.Fetch", "Whisper.FetchFromArchive")
 	for _, c := range callsTo(f, fn(w.Lib, "Whisper.findBestArchive")) {
 		es := callArgExprs(w, c)
 		r.Check(es[1] == "p2", "C04.R4", "FetchFromArchive:best-archive-from", w.instrPos(c), "best archive chosen from the unclamped from", "findBestArchive is called with "+es[1]+" instead of the requested from")
